@@ -25,7 +25,7 @@ from ..refeval import close, evaluate
 THEOREMS = ["Pt.slice_resynth_roundtrip", "Pt.slice_resynth_selects_same",
             # the generator model (tied to the real generator by text: batch lean-generator-model-vs-real-text)
             "Pt.Py.pygen_sound", "Pt.Py.pygen_refuses", "Pt.Py.outputs_aligned", "Pt.Py.fragment_check_sound",
-            "Pt.Py.print_parse_roundtrip", "Pt.Py.print_precedence_sound"]
+            "Pt.Py.print_parse_roundtrip", "Pt.Py.print_precedence_sound", "Pt.Py.il_value_pointwise"]
 
 def _not_supported():
     # NotImplementedError, or the explicit "this index lambda has no known high-level form" diagnostic
